@@ -143,6 +143,10 @@ impl Ctx {
     /// Report a property violation identified by `key`. Returns true when it is a listed open
     /// known finding (the caller may continue as if it held), false for a new violation.
     pub fn violation(&self, key: &str, what: impl FnOnce() -> String, replay: impl FnOnce() -> Value) -> bool {
+        self.violation_sized(key, u64::MAX, what, replay)
+    }
+    /// as `violation`, keeping per key the witness with the smallest `size` (shortest counterexample)
+    pub fn violation_sized(&self, key: &str, size: u64, what: impl FnOnce() -> String, replay: impl FnOnce() -> Value) -> bool {
         for k in &self.known {
             if k.property == self.prop && k.key == key && k.status == "open" {
                 *self.known_hits.lock().unwrap().entry(key.to_string()).or_insert(0) += 1;
@@ -150,8 +154,12 @@ impl Ctx {
             }
         }
         let mut v = self.violations.lock().unwrap();
-        if !v.contains_key(key) && v.len() < 50 {
-            v.insert(key.to_string(), json!({"what": what(), "replay": replay()}));
+        let better = match v.get(key) {
+            Some(old) => size < old["size"].as_u64().unwrap_or(u64::MAX),
+            None => v.len() < 50,
+        };
+        if better {
+            v.insert(key.to_string(), json!({"what": what(), "replay": replay(), "size": size}));
         }
         false
     }
